@@ -897,9 +897,10 @@ def fam_single_op(rng, kind=None):
         net.op("QUANTIZE", [t_], [y], {})
     elif kind == "mean_big":
         # MEAN over so many elements that Vela splits it into several depthwise convolutions and adds the partial sums
-        hh, ww = rng.choice([(70, 64), (130, 40), (66, 66), (100, 50), (1, 5000), (80, 60)])
+        # (one, two, three and more partial convolutions; a reduction over the height alone)
+        hh, ww = rng.choice([(70, 64), (130, 40), (66, 66), (100, 50), (1, 5000), (80, 60), (96, 96), (150, 64), (100, 90), (200, 4), (260, 3)])
         x = _inp(net, rng, [1, hh, ww, rng.choice([1, 2, 4])], dt)
-        y = mean(net, rng, x, (1, 2), keep=rng.random() < 0.5)
+        y = mean(net, rng, x, (1,) if (ww <= 4 and rng.random() < 0.7) else (1, 2), keep=rng.random() < 0.5)
     elif kind == "pad_pool":
         # PAD in front of pooling operators (average pools fold the padding into explicit padding with their own divisor rule)
         hh, ww, cc = rng.randrange(3, 10), rng.randrange(3, 10), rng.choice([4, 8, 16])
@@ -1370,7 +1371,8 @@ def fam_mixed_exact(rng):
 UNSUPPORTED_KINDS = ["rank5", "rank0", "batch", "big_stride", "big_kernel", "int32_add", "float", "dyn_weights",
                      "big_dim", "no_quant", "dilation", "int16_pool", "bool", "per_axis_fc", "pool_stride4", "dw_stride4",
                      "dyn_reshape", "dyn_pad", "dyn_mean", "dyn_transpose", "dyn_slice", "dyn_resize", "dyn_split", "dyn_splitv",
-                     "tconv_s3", "fc_dynw", "ew_widen16", "ew_widen32", "ew_narrow", "pad_shared_tensor", "pad_shared_buffer"]
+                     "tconv_s3", "fc_dynw", "ew_widen16", "ew_widen32", "ew_narrow", "pad_shared_tensor", "pad_shared_buffer",
+                     "reshape_requant", "reshape_5d", "squeeze_requant"]
 
 
 def fam_unsupported(rng, kind=None):
@@ -1403,6 +1405,24 @@ def fam_unsupported(rng, kind=None):
     elif kind == "big_kernel":
         x = _inp(net, rng, [1, 70, 70, 2], dt)
         y = conv2d(net, rng, x, 2, (rng.choice([65, 8]), rng.choice([65, 9])), (1, 1), (1, 1), "SAME")
+    elif kind in ("reshape_requant", "reshape_5d", "squeeze_requant"):
+        # a memory-only operator outside its constraints (output quantised differently from the input / a tensor of rank 5)
+        # between operators the NPU runs: it must stay a CPU operator of its own
+        hh, ww, cc = rng.choice([4, 6, 8]), rng.choice([4, 6]), rng.choice([4, 8])
+        x = _inp(net, rng, [1, hh, ww, cc], dt)
+        a_ = conv2d(net, rng, x, cc, (1, 1), (1, 1), (1, 1), "SAME") if rng.random() < 0.6 else unary(net, rng, "RELU", x)
+        if kind == "reshape_5d":
+            r = net.tensor([1, 1, hh, ww, cc], dt, a_.scale, a_.zp)
+            net.op("RESHAPE", [a_, net.tensor([5], "int32", None, None, [1, 1, hh, ww, cc])], [r], dict(NewShape=[1, 1, hh, ww, cc]))
+            y = r
+        elif kind == "reshape_requant":
+            r = net.tensor([1, ww, hh, cc], dt, float(np.float32(a_.scale * 2)), a_.zp)
+            net.op("RESHAPE", [a_, net.tensor([4], "int32", None, None, [1, ww, hh, cc])], [r], dict(NewShape=[1, ww, hh, cc]))
+            y = conv2d(net, rng, r, cc, (1, 1), (1, 1), (1, 1), "SAME") if rng.random() < 0.7 else unary(net, rng, "RELU", r)
+        else:
+            r = net.tensor([hh, ww, cc], dt, float(np.float32(a_.scale * 0.5)), a_.zp)
+            net.op("SQUEEZE", [a_], [r], dict(SqueezeDims=[0]))
+            y = unary(net, rng, "RELU", r)
     elif kind in ("pad_shared_tensor", "pad_shared_buffer"):
         # a PAD for the NPU (channel and height / width padding in one operator) and a MIRROR_PAD for the CPU with equal
         # paddings: one constant tensor read by both, or two constant tensors on one buffer
